@@ -6,22 +6,22 @@ import "verifharness/internal/ev"
 func init() {
 	ev.Define("tess_projected", ev.Options{
 		Rule:  "geodesic polylines of 1-3 edges (families: random, mirrored in the equator, same latitude, across the antimeridian, at the top latitude of the domain, short 1e-6..1 deg, meridian/equator, multiples of 15 deg; Mercator: whole geodesic within 85 deg), PlateCarree/Mercator at scales pi,180,1,2^20, tolerance 1e-13..1 rad tied to edge length (>= L^2*1e-6 so chains stay small). Oracle: own inverse projection + own point-to-geodesic distance (float64, breaches confirmed with 320-bit hp); 8-48 samples per output edge + golden-section refinement; endpoints; half-wrap rule; reverse direction geodesic->chain by 1-D minimisation. Non-trivial = chain has >= 3 vertices and observed error > 0.5 tol.",
-		Quick: 20000, Thorough: 1000000, Journal: true}, genProjected, checkProjected)
+		Quick: 50000, Thorough: 2500000, Journal: true}, genProjected, checkProjected)
 	ev.Define("tess_unprojected", ev.Options{
 		Rule:  "planar polylines of 1-2 edges (same families expressed in the plane, x shifted by -1/0/+1 wraps, |y| within the domain: PlateCarree 90 deg, Mercator 85 deg), same projections/scales/tolerances. Oracle: own inverse/forward projection, documented shortest-edge wrap rule, own point-to-geodesic distance (hp-confirmed); direction planar->chain sampled 8-48 points per output geodesic + refinement, direction chain->planar against a 64-piece polyline of the image (discretisation allowance 2e-3 tol). Non-trivial = chain has >= 3 vertices and observed error > 0.5 tol.",
-		Quick: 20000, Thorough: 1000000, Journal: true}, genUnprojected, checkUnprojected)
+		Quick: 50000, Thorough: 2500000, Journal: true}, genUnprojected, checkUnprojected)
 	ev.Define("projection_roundtrip", ev.Options{
 		Rule:  "points near the antimeridian, near the top latitude of the domain (offsets 1e-15..1 deg; Mercator <= 85 deg), near the equator, framework base points, uniform lat/lng; both projections, 4 scales. Unproject(Project(p)) within 1e-14 rad of p (also against an independently written projection pair, hp-confirmed), invariance under -2..2 wraps, coordinate ranges, FromLatLng/ToLatLng equivalence, WrapDestination law (y unchanged, within half a wrap, whole number of wraps, untouched when already shortest; b exactly/nearly half a wrap or whole wraps away), Interpolate linear and exact at 0 and 1. Non-trivial = within 1 deg of the latitude limit or of the antimeridian, or wrapping took place.",
-		Quick: 60000, Thorough: 3000000}, genRoundTrip, checkRoundTrip)
+		Quick: 100000, Thorough: 5000000}, genRoundTrip, checkRoundTrip)
 	ev.Define("subsample_vertices", ev.Options{
 		Rule:  "polylines of 2..500 vertices (random walks with steps 0.03..30 tol, great-circle runs with perpendicular offsets at 0/0.3/0.9/0.999/1/1.001/1.1/2 tol, zig-zags, forward-back-forward over identical vertices, adjacent duplicates, steps around and above 90 deg, clusters inside the tolerance disc, 1e-13..1e-11 scale), tolerance 1e-13..1 rad. Checks: index 0 kept, indices strictly increasing, last point preserved when first != last, adjacent outputs neither identical nor antipodal, every dropped vertex within tol+1e-14 of the output edge replacing it (own distance, hp-confirmed). Non-trivial = at least one vertex dropped.",
-		Quick: 20000, Thorough: 1000000}, genSubsample, checkSubsample)
+		Quick: 60000, Thorough: 4000000}, genSubsample, checkSubsample)
 	ev.Define("snap_cellid", ev.Options{
 		Rule:  "levels 0..30 (CellIDSnapperForLevel; 1/16 of cases the default constructor NewCellIDSnapper), points at cell vertices (largest move), 1e-16..0.3 of the way from a vertex to the centre, on cell edges, uniform in uv inside a cell, framework base points, cell centres, poles/antimeridian/cube-corner directions. Checks: result is a level-k cell centre (own face/uv/st transform: s,t odd multiples of 2^-(k+1) within 1e-4 lattice units), distance p->SnapPoint(p) <= SnapRadius() decided with 320-bit arithmetic, exact idempotence. Non-trivial = moved more than half the radius.",
-		Quick: 100000, Thorough: 5000000}, genSnapCell, checkSnapCell)
+		Quick: 200000, Thorough: 10000000}, genSnapCell, checkSnapCell)
 	ev.Define("snap_intlatlng", ev.Options{
-		Rule:  "exponents 0..10; points whose lat/lng in units of the grid are k+0.5+{0,+-1e-9,+-1e-3,+-0.1,+-0.4} (largest move), uniform lat/lng, within 0..20 grid steps of a pole or of the antimeridian, exactly on the grid, framework base points. Checks: result within 1e-14 rad of a site of the 10^-e DEGREE grid with |lat|<=90, |lng|<=180 (own lat/lng extraction), distance <= SnapRadius() decided with 320-bit arithmetic, exact idempotence. Non-trivial = moved more than half the radius.",
-		Quick: 100000, Thorough: 5000000}, genSnapLL, checkSnapLL)
+		Rule:  "exponents 0..10; points whose lat/lng in units of the grid are k+0.5+{0,+-1e-9,+-1e-3,+-0.1,+-0.4} (largest move), uniform lat/lng, within 0..20 grid steps of a pole or of the antimeridian, exactly on the grid, framework base points. Checks: result within 1e-14 rad of a site of the 10^-e DEGREE grid with |lat|<=90, |lng|<=180 (own lat/lng extraction), distance <= SnapRadius() decided with 320-bit arithmetic, a site snaps to itself (within 1e-14; at a pole the longitude is arbitrary). Non-trivial = moved more than half the radius.",
+		Quick: 200000, Thorough: 10000000}, genSnapLL, checkSnapLL)
 	ev.Define("snap_identity", ev.Options{
 		Rule:  "IdentitySnapper with radii 0..70 deg: SnapPoint(p) == p and SnapRadius() is the given radius. Every case counts as non-trivial (there is only one path).",
 		Quick: 4000, Thorough: 100000}, genSnapID, checkSnapID)
